@@ -6,8 +6,9 @@
    The identity model = spec is definitional; what ties it to stockpyl is the correspondence on HC/SC/ITHC/REV/TC and the
    return value on every generated case, plus an oracle recomputing the costs from the implementation's own state
    variables (incl. multi-product networks with shared raw materials: Stage-2 model, C05_multi_* theorems below).
-   Cost FUNCTIONS (Python callables) are outside the model. *)
-From SV Require Import Sim.Model Sim.Inv_base Sim.Policy_thms Sim.Example.
+   Cost FUNCTIONS (local_holding_cost_function / stockout_cost_function): Sim/CostFn.v, C05_fn_* theorems below; the generated cases with
+   cost functions are evaluated with that read-out and compared with the implementation like the others. *)
+From SV Require Import Sim.Model Sim.Inv_base Sim.Policy_thms Sim.Example Sim.Obs Sim.CostFn Sim.CostFn_proofs.
 From SV Require Import Sim2.State2 Sim2.Model2 Sim2.Inv2a_tac Sim2.Inv2a_run Sim2.Wfb2 Sim2.Inv2b_tac Sim2.Inv2b_init Sim2.Main2b Sim2.Inv2c_cost Sim2.Main2c.
 
 Theorem C05_costs_match_spec : forall NW e n, let k := node_costs NW e n in
@@ -23,6 +24,31 @@ Proof. exact costs_nonneg. Qed.
 Theorem C05_mean_of_trials : forall (totals : list Q) (T : Q), ~ T == 0 ->
   qmean (map (fun x => x / T) totals) == (qsum totals / T) / qnat (length totals).
 Proof. exact mean_of_trials. Qed.
+
+(* ---- cost functions (sim._calculate_period_costs: a node's holding-cost function replaces rate x items held and sees exactly the items
+   held; its stockout-cost function replaces rate x backorders and sees the SIGNED inventory level; raw materials, in-transit and revenue as
+   before): read-out = specification, coincides with the rate read-out where no function is set (so every theorem above carries over),
+   return value = sum of the totals, components >= 0 for functions that are >= 0 on the arguments they can see ---- *)
+Theorem C05_fn_costs_match_spec : forall NW (hf sf : N -> option (Q -> Q)) e n, let k := node_costs_fn NW hf sf e n in
+  (c_hc k, c_sc k, c_ithc k, c_rev k) = cost_spec_fn NW hf sf e n /\ c_tc k = c_hc k + c_sc k + c_ithc k - c_rev k.
+Proof. exact costs_fn_match_spec. Qed.
+Theorem C05_fn_without_functions_is_rate_cost : forall NW (hf sf : N -> option (Q -> Q)) recs,
+  (forall n, In n (nodes NW) -> hf n = None /\ sf n = None) ->
+  total_cost_fn NW hf sf recs = total_cost NW recs /\ forall e n, In n (nodes NW) -> node_costs_fn NW hf sf e n = node_costs NW e n.
+Proof. intros NW hf sf recs H. split; [exact (total_fn_none NW hf sf recs H)|]. intros e n Hn. destruct (H n Hn). apply costs_fn_none; assumption. Qed.
+Theorem C05_fn_total_is_sum : forall NW (hf sf : N -> option (Q -> Q)) recs,
+  total_cost_fn NW hf sf recs = qsum (map (fun e => qsum (map (fun n => c_tc (node_costs_fn NW hf sf e n)) (nodes NW))) recs).
+Proof. exact total_fn_is_sum. Qed.
+Theorem C05_fn_costs_nonneg : forall NW (hf sf : N -> option (Q -> Q)) e n, NN e -> 0 <= hc (cfg NW n) -> (forall p, 0 <= hc (cfg NW p)) -> 0 <= pc (cfg NW n) ->
+  match ith (cfg NW n) with Some r => 0 <= r | None => True end ->
+  (forall f, hf n = Some f -> forall x, 0 <= x -> 0 <= f x) -> (forall g, sf n = Some g -> forall x, 0 <= g x) ->
+  let k := node_costs_fn NW hf sf e n in 0 <= c_hc k /\ 0 <= c_sc k /\ 0 <= c_ithc k.
+Proof. exact costs_fn_nonneg. Qed.
+Theorem C05_fn_linear_function_is_rate : forall NW (hf sf : N -> option (Q -> Q)) e n,
+  hf n = Some (quad_h (hc (cfg NW n)) 0) -> sf n = Some (quad_p (pc (cfg NW n)) 0) ->
+  let k := node_costs_fn NW hf sf e n in let k0 := node_costs NW e n in
+  c_hc k == c_hc k0 /\ c_sc k == c_sc k0 /\ c_ithc k = c_ithc k0 /\ c_rev k = c_rev k0 /\ c_tc k == c_tc k0.
+Proof. exact costs_fn_linear. Qed.
 
 (* ---- multi-product networks (Stage-2 model Sim2/Model2.v; Sim2/Inv2c_cost.v): holding = sum over products of rate x (IL+ + held items) + per RAW MATERIAL (once, even if
    several products use it) the pricing supplier's rate x (raw-material stock + items held at the door from that supplier); stockout = rate x backorders per product;
@@ -106,10 +132,28 @@ Example C05_nonvacuous : let e := nth 5 (run ex_net ex_inputs) empty_st in
   0 < c_hc (node_costs ex_net e 2%N) + c_sc (node_costs ex_net e 2%N) /\ 0 < c_ithc (node_costs ex_net e 2%N) + c_ithc (node_costs ex_net e 1%N).
 Proof. vm_compute. split; reflexivity. Qed.
 
+(* a quadratic holding function at node 1 and a quadratic stockout function at node 2 of the example run: in period 6 node 1 holds 3 items
+   (rate cost 3, function cost 3.75) and node 2 is 10 short (rate cost 50, function cost 80), node 3 has no function and reads as before; the
+   hypotheses of C05_fn_costs_nonneg hold for these families *)
+Example C05_fn_nonvacuous : let e := nth 6 (run ex_net ex_inputs) empty_st in
+  let hf := tbl None [(1%N, Some (quad_h (1 # 2) (1 # 4)))] in let sf := tbl None [(2%N, Some (quad_p 3 (1 # 2)))] in
+  (qobs (c_hc (node_costs ex_net e 1%N)), qobs (c_hc (node_costs_fn ex_net hf sf e 1%N))) = ((3, 1), (15, 4))%Z /\
+  (qobs (c_sc (node_costs ex_net e 2%N)), qobs (c_sc (node_costs_fn ex_net hf sf e 2%N))) = ((50, 1), (80, 1))%Z /\
+  node_costs_fn ex_net hf sf e 3%N = node_costs ex_net e 3%N /\
+  (forall x, 0 <= x -> 0 <= quad_h (1 # 2) (1 # 4) x) /\ (forall x, 0 <= quad_p 3 (1 # 2) x).
+Proof. cbv zeta. split; [vm_compute; reflexivity|split; [vm_compute; reflexivity|split; [vm_compute; reflexivity|split]]].
+  - intros x Hx. apply quad_h_nonneg; [lra|lra|exact Hx].
+  - intros x. apply quad_p_nonneg; lra. Qed.
+
 Print Assumptions C05_costs_match_spec.
 Print Assumptions C05_total_is_sum.
 Print Assumptions C05_costs_nonneg.
 Print Assumptions C05_mean_of_trials.
+Print Assumptions C05_fn_costs_match_spec.
+Print Assumptions C05_fn_without_functions_is_rate_cost.
+Print Assumptions C05_fn_total_is_sum.
+Print Assumptions C05_fn_costs_nonneg.
+Print Assumptions C05_fn_linear_function_is_rate.
 Print Assumptions C05_multi_costs_match_spec.
 Print Assumptions C05_multi_stockout_is_backorders.
 Print Assumptions C05_multi_raw_material_charged_once.
